@@ -149,3 +149,92 @@ func (e *ordEnv) edgeFeasible(from, to *ssa.BasicBlock, depth int) bool {
 	}
 	return true
 }
+
+// ---------------------------------------------------------------------------
+// concrete walk of a loop-free function under a fully specified environment
+
+type walkEnv struct {
+	// evalAtom decides leaf-level boolean values the walk cannot compute itself
+	// (field flags, nil tests, comparisons); 0 = unknown
+	evalAtom func(w *walker, v ssa.Value) int
+}
+
+type walker struct {
+	env    *walkEnv
+	vals   map[ssa.Value]int
+	events []string
+	onCall func(w *walker, call *ssa.Call)
+}
+
+func (w *walker) eval(v ssa.Value, d int) int {
+	v = stripTrivial(v)
+	if d > 16 {
+		return 0
+	}
+	if r, ok := w.vals[v]; ok {
+		return r
+	}
+	if r := w.env.evalAtom(w, v); r != 0 {
+		return r
+	}
+	switch x := v.(type) {
+	case *ssa.Const:
+		if x.Value != nil && x.Value.Kind() == constant.Bool {
+			if constant.BoolVal(x.Value) {
+				return 1
+			}
+			return -1
+		}
+	case *ssa.UnOp:
+		if x.Op == token.NOT {
+			return -w.eval(x.X, d+1)
+		}
+	}
+	return 0
+}
+
+// run walks fn from its entry; returns the Return reached (nil if a branch
+// could not be decided) and the block where it got stuck.
+func (w *walker) run(fn *ssa.Function) (*ssa.Return, ssa.Instruction) {
+	b := fn.Blocks[0]
+	var prev *ssa.BasicBlock
+	for steps := 0; steps < 500; steps++ {
+		// phis first, using the edge actually taken
+		for _, in := range b.Instrs {
+			p, ok := in.(*ssa.Phi)
+			if !ok {
+				break
+			}
+			for i, pb := range b.Preds {
+				if pb == prev {
+					w.vals[p] = w.eval(p.Edges[i], 0)
+				}
+			}
+		}
+		for _, in := range b.Instrs {
+			switch x := in.(type) {
+			case *ssa.Call:
+				if w.onCall != nil {
+					w.onCall(w, x)
+				}
+			case *ssa.If:
+				r := w.eval(x.Cond, 0)
+				if r == 0 {
+					return nil, x
+				}
+				prev = b
+				if r > 0 {
+					b = b.Succs[0]
+				} else {
+					b = b.Succs[1]
+				}
+			case *ssa.Jump:
+				prev = b
+				b = b.Succs[0]
+			case *ssa.Return:
+				return x, nil
+			}
+		}
+	}
+	return nil, nil
+}
